@@ -374,7 +374,7 @@ func linearInLenEnv(v ssa.Value, src ssa.Value, env map[ssa.Value][2]int64, dept
 func c08DecodeRoom(w *World, r *Report) { ruleAscii85Room(w, r, "R08.7") }
 
 func ruleAscii85Room(w *World, r *Report, rule string) {
-	for fn := range allModuleFuncs(w, w.SSA()) {
+	for _, fn := range sortedModuleFuncs(w, w.SSA()) {
 		for _, c := range callsIn(fn) {
 			f := sCallee(c)
 			if f == nil || f.Pkg() == nil || f.Pkg().Path() != "encoding/ascii85" || f.Name() != "Decode" {
@@ -695,7 +695,7 @@ func ruleBase85Substitution(w *World, r *Report, rule string) {
 // flow into a re-slice of the destination buffer.
 func c08WrittenLen(w *World, r *Report) {
 	n := 0
-	for fn := range allModuleFuncs(w, w.SSA()) {
+	for _, fn := range sortedModuleFuncs(w, w.SSA()) {
 		for _, c := range callsIn(fn) {
 			f := sCallee(c)
 			if f == nil || f.Pkg() == nil || f.Pkg().Path() != "encoding/ascii85" || (f.Name() != "Encode" && f.Name() != "Decode") {
@@ -1032,7 +1032,7 @@ func c08LengthAlgebra(w *World, r *Report) {
 	// codecs this module can select: the package-level encoding objects referenced outside package enc
 	selectable := map[*types.Named]bool{}
 	encPkg := w.Pkg("internal/util/enc")
-	for fn := range allModuleFuncs(w, w.SSA()) {
+	for _, fn := range sortedModuleFuncs(w, w.SSA()) {
 		if fn.Pkg == nil || fn.Pkg.Pkg == encPkg.Types {
 			continue
 		}
